@@ -138,3 +138,11 @@ Definition prop_C12_goto (t : tree) (p q : pos) (path : list pos) : bool :=
 (* BinaryNode.is_leaf: no slot holds a node *)
 Definition prop_C12_binary_leaf {A} (slots : list (option A)) (is_leaf : bool) : bool :=
   Bool.eqb is_leaf (forallb (fun o => match o with None => true | Some _ => false end) slots).
+
+(* The inherited queries on a BinaryNode tree: the tree meant is the one whose children are the
+   occupied slots; the values must be those of that tree (a diameter, not an exception; siblings
+   that are nodes). *)
+Definition prop_C12_binary_diameter (t : tree) (p : pos) (code value : nat) : bool :=
+  Nat.eqb code 0 && Nat.eqb value (spec_diameter t p).
+Definition prop_C12_binary_siblings (t : tree) (p : pos) (sibs : list (option pos)) : bool :=
+  list_eqb (opt_eqb pos_eq) sibs (map Some (spec_siblings t p)).
